@@ -189,7 +189,8 @@ SPECS["dead_letter.rs::record"] = dict(record_emit=True, requires=[], ensures=[
 AMB = "same_ambient_but_dl(*old(w), *final(w))"
 AMB_BUT_GRAPH = "same_ambient_but_dl_graph(*old(w), *final(w))"
 SPECS["actor_ref.rs::ActorRef::tell"] = dict(ret="result", ensures=[
-    C("tell.relation", "C01 C02 C09 C13", "r_tell::<M>(self.hv(), msg_id(msg), old(w).log(), final(w).log(), result, \"tell\"@)"),
+    C("tell.relation", "C01 C02 C13", "r_tell::<M>(self.hv(), msg_id(msg), old(w).log(), final(w).log(), result, \"tell\"@)"),
+    C("tell.waits_for_room_ok_iff_accepted", "C09", "r_waiting_send(self.hv(), old(w).log(), final(w).log(), result is Ok)"),
     C("tell.dead_letters", "C13", "r_dl::<M>(self.id, old(w).log(), final(w).log(), dl_reason_tell(result), \"tell\"@)"),
     C("tell.frame", "C12", AMB),
 ])
